@@ -92,6 +92,10 @@ func NewServer() *Server {
 		SlowDelay: time.Second, BackoffDelay: 2 * time.Second, CancelSleep: time.Hour}
 }
 
+// SetNonceBase makes the server number its nonces from n (C49 varies it so that deterministic
+// signature schemes see fresh inputs on every run; C50 keeps the default 1, as the trace spec expects).
+func (s *Server) SetNonceBase(n int) { s.nextNonce = n }
+
 func (s *Server) logf(e Event) { s.Log = append(s.Log, e) }
 
 // Reset starts a new recorded trace (the pool of a fresh client is empty until Discover).
